@@ -10,6 +10,9 @@ shape is chosen by solver integers and whose always_run flags / command exit sta
   s_j    in {0, 1}                                      j.depends_on(j)
   fl_j   in {0 file, 1 resource group, 2 group member}  how consumer j mentions its producers' outputs
   aro    in {0, 1}                                      always_run() called after / before the commands
+  ord_j_n / ordg                                         iteration order of job j's dependency set (Job._dependencies is
+                                                        replaced by OrdSet: a permutation of the job-index order; every
+                                                        permutation for acyclic pipelines, canonical/reversed for cyclic)
   ar_j   Bool                                           j.always_run(ar_j)      (proxy: forks only where the
   fail_j Bool                                           exit status of job j     real code branches on it)
 
@@ -20,6 +23,7 @@ The oracle below is written independently of the code under test (Kahn order, le
 """
 import contextlib
 import io
+import itertools
 import os
 import re
 import shutil
@@ -93,6 +97,44 @@ def teardown():
         shutil.rmtree(_STATE['root'], ignore_errors=True)
 
 
+# ---- harness-controlled iteration order of the dependency sets ---------------------------------------------
+PERMS = {n: list(itertools.permutations(range(n))) for n in range(2, 6)}
+
+
+class OrdSet(set):
+    """Job._dependencies is a set of Job objects hashed by address: its iteration order is an accident of memory
+    layout.  The harness replaces it by this subclass whose iteration order is an INPUT: the elements in job-index
+    order, permuted by a permutation the solver chooses (and a replay pins)."""
+
+    def __init__(self, ctl, owner):
+        super().__init__()
+        self._ctl = ctl
+        self._owner = owner
+        self._perm = None
+
+    def __iter__(self):
+        items = sorted(set.__iter__(self), key=lambda job: int(job.name[1:]))
+        n = len(items)
+        if n < 2:
+            return iter(items)
+        if self._perm is None or len(self._perm) != n:
+            self._perm = PERMS[n][self._ctl.order_of(self._owner, n)]
+        return iter([items[k] for k in self._perm])
+
+
+class OrderCtl:
+    def __init__(self, N, inp, shape):
+        self.N, self.inp, self.shape = N, inp, shape
+        self._cyclic = None
+
+    def order_of(self, owner, n):
+        if self._cyclic is None:
+            self._cyclic = kahn(self.N, parents_of(self.N, self.shape)) is None
+        k = self.inp.order(owner, n, self._cyclic)
+        self.shape['orders'][owner] = k
+        return k
+
+
 # ---- inputs ---------------------------------------------------------------------------------------------
 class SymInputs:
     """Inputs drawn from the solver (inside a shapesym run)."""
@@ -105,11 +147,18 @@ class SymInputs:
         self._ar = {}
         self._fail = {}
         self.skip_acyclic = False
+        self.cyclic_global_flavour = False
+        self.order_mode = 'all'
 
     def ar_before(self):
         return shapesym.choose('aro', self.aro_opts)
-        self._ar = {}
-        self._fail = {}
+
+    def order(self, owner, n, cyclic):
+        """Iteration order of job `owner`'s dependency set of n >= 2 elements: index into PERMS[n].  Acyclic
+        pipelines: every permutation; cyclic pipelines: one solver bit for the whole pipeline (canonical / reversed)."""
+        if cyclic or self.order_mode == 'global2':
+            return (len(PERMS[n]) - 1) if shapesym.choose('ordg', [0, 1]) else 0
+        return shapesym.choose(f'ord_{owner}_{n}', list(range(len(PERMS[n]))))
 
     def edge(self, i, j):
         return shapesym.choose(f'e_{i}_{j}', self.kinds)
@@ -117,9 +166,10 @@ class SymInputs:
     def selfloop(self, j):
         return shapesym.choose(f's_{j}', [0, 1])
 
-    def flavour(self, j):
-        # one flavour per consumer, or (larger N) one for the whole pipeline
-        return shapesym.choose('fl' if self.global_flavour else f'fl_{j}', [0, 1, 2])
+    def flavour(self, j, cyclic=False):
+        # one flavour per consumer, or one for the whole pipeline (larger N; cyclic pipelines when so configured)
+        one = self.global_flavour or (cyclic and self.cyclic_global_flavour)
+        return shapesym.choose('fl' if one else f'fl_{j}', [0, 1, 2])
 
     def ar(self, j):
         if j not in self._ar:
@@ -147,8 +197,13 @@ class ConcreteInputs:
     def selfloop(self, j):
         return int(self.d.get(f's_{j}', 0))
 
-    def flavour(self, j):
-        return int(self.d['fl']) if 'fl' in self.d else int(self.d.get(f'fl_{j}', 0))
+    def flavour(self, j, cyclic=False):
+        return int(self.d[f'fl_{j}']) if f'fl_{j}' in self.d else int(self.d.get('fl', 0))
+
+    def order(self, owner, n, cyclic):
+        if f'ord_{owner}_{n}' in self.d:
+            return int(self.d[f'ord_{owner}_{n}']) % len(PERMS[n])
+        return (len(PERMS[n]) - 1) if int(self.d.get('ordg', 0)) else 0
 
     def ar(self, j):
         return bool(self.d.get(f'ar_{j}', False))
@@ -162,11 +217,14 @@ def build_and_run(N, inp):
     """Build the pipeline with the real DSL and run it on the real LocalBackend.  Returns the observation."""
     setup()
     lb = _STATE['backend']
-    shape = {'edges': {}, 'self': {}, 'fl': {}}
+    shape = {'edges': {}, 'self': {}, 'fl': {}, 'orders': {}}
     obs = {'shape': shape, 'exc': None, 'build_failed': False}
     try:
         b = hb.Batch(backend=lb, name='c17')
         jobs = [b.new_job(name=f'j{i}') for i in range(N)]
+        ctl = OrderCtl(N, inp, shape)
+        for i, j in enumerate(jobs):
+            j._dependencies = OrdSet(ctl, i)
         # phase 1: every job defines its outputs (a resource must be defined by its producer before another job's
         # command may mention it)
         for i, j in enumerate(jobs):
@@ -178,16 +236,21 @@ def build_and_run(N, inp):
             # always_run set before the consuming commands: _interpolate_command then branches on the flag
             for ji in range(N):
                 jobs[ji].always_run(inp.ar(ji))
-        # phase 2: dependencies, explicit and through consumed resources, in both directions
+        # the dependency relation: explicit and through consumed resources, in both directions (a job may depend on
+        # jobs created after it: "created earlier than its dependencies")
+        allk = {}
         for ji in range(N):
-            j = jobs[ji]
-            kinds = {}
             for pi in range(N):
                 if pi != ji:
-                    kinds[pi] = inp.edge(pi, ji)
-                    shape['edges'][(pi, ji)] = kinds[pi]
-            sl = inp.selfloop(ji)
-            shape['self'][ji] = sl
+                    allk[(pi, ji)] = inp.edge(pi, ji)
+                    shape['edges'][(pi, ji)] = allk[(pi, ji)]
+            shape['self'][ji] = inp.selfloop(ji)
+        cyc = kahn(N, parents_of(N, shape)) is None
+        # phase 2: the DSL calls
+        for ji in range(N):
+            j = jobs[ji]
+            kinds = {pi: allk[(pi, ji)] for pi in range(N) if pi != ji}
+            sl = shape['self'][ji]
             explicit = [jobs[pi] for pi, k in kinds.items() if k in (1, 3)]
             if sl:
                 explicit.append(j)
@@ -195,7 +258,7 @@ def build_and_run(N, inp):
                 j.depends_on(*explicit)
             consumed = [pi for pi, k in kinds.items() if k in (2, 3)]
             if consumed:
-                fl = inp.flavour(ji)
+                fl = inp.flavour(ji, cyc)
                 shape['fl'][ji] = fl
                 refs = []
                 for pi in consumed:
@@ -316,6 +379,29 @@ def violation(N, obs, ar, fail):
     return z3.Not(z3.And(*parts.values())), parts
 
 
+def replay_any_order(N, d, part=None):
+    """Replay with the pinned iteration orders; if that does not reproduce (some OTHER set of the code under test
+    iterates in an accidental order), retry under every order of the dependency sets before giving up.
+    -> (violated?, failed parts, observation, inputs actually used)."""
+    bad, parts, obs = replay_concrete(N, d)
+    if bad and (part is None or part in parts):
+        return bad, parts, obs, d
+    top = min(N, 3)
+    names = [f'ord_{j}_{n}' for j in range(N) for n in range(2, top + 1)]
+    sizes = {f'ord_{j}_{n}': len(PERMS[n]) for j in range(N) for n in range(2, top + 1)}
+    tried = 0
+    for combo in itertools.product(*[range(sizes[nm]) for nm in names]):
+        for g in (0, 1):
+            d2 = dict(d, ordg=g, **dict(zip(names, combo)))
+            tried += 1
+            b2, p2, o2 = replay_concrete(N, d2)
+            if b2 and (part is None or part in p2):
+                return b2, p2, o2, d2
+        if tried > 4000:
+            break
+    return bad, parts, obs, d
+
+
 def replay_concrete(N, d):
     """Run one concrete input (a solver model) on the real code; returns (violated?, failed parts, observation)."""
     inp = ConcreteInputs(d)
@@ -386,6 +472,7 @@ def explore_shard(args):
         cons += [x == 0 for x in sv.values()]
     if args.get('fixed_flavour') is not None:
         cons += [z3.Int(f'fl_{j}') == args['fixed_flavour'] for j in range(N)]
+        cons.append(z3.Int('fl') == args['fixed_flavour'])
     for name, val in args.get('fix', {}).items():
         cons.append(z3.Int(name) == val)
     if args.get('deadline_at') and time.time() > args['deadline_at']:
@@ -404,6 +491,8 @@ def explore_shard(args):
     def body():
         inp = SymInputs(N, args['kinds'], args.get('aro', (0,)), args.get('global_flavour', False))
         inp.skip_acyclic = bool(args.get('cyclic_only'))
+        inp.cyclic_global_flavour = bool(args.get('cyclic_global_flavour'))
+        inp.order_mode = args.get('order_mode', 'all')
         inputs_holder['inp'] = inp
         return build_and_run(N, inp)
 
@@ -437,6 +526,11 @@ def explore_shard(args):
         res['queries'] += 1
         if r == 'sat':
             d = model_to_inputs(N, m, args.get('global_flavour', False), args['kinds'], list(args.get('aro', (0,))))
+            for name, idx in p.choices.items():
+                if name.startswith('ord') or name == 'fl' or name.startswith('fl_'):
+                    d[name] = idx
+            for name in [k for k in d if k.startswith('fl') and k not in p.choices]:
+                del d[name]
             bad = [k for k, f in parts.items() if not z3.is_true(m.eval(f, model_completion=True))]
             res['violations'].append({'inputs': d, 'parts': bad})
         elif r != 'unsat':
